@@ -144,6 +144,25 @@ def set_attributes(ac, AC, st):
     ac.freeze_protection = bool(st["freeze"])
 
 
+def record_returns(ac):
+    """wrap this client's LAN.send: collect every frame it returns from now on"""
+    got, orig = [], ac._lan.send
+
+    async def send(data, retries=3):
+        r = await orig(data, retries=retries)
+        got.extend(bytes(f) for f in r)
+        return r
+    ac._lan.send = send
+    return got
+
+
+def has_report_of(model, frames, state):
+    """did the exchange hand the client a status report of exactly this appliance state?"""
+    st, outs = model.call(F_STATUS, [list(state)])
+    body = bytes(outs[0])
+    return any(bytes(f[10:-2]) == body for f in frames)
+
+
 def session(model, rng, version, plan, device_state=None, device_id=123456):
     """-> (net, appliance, new_client())"""
     from msmart.device.AC.device import AirConditioner as AC
@@ -184,8 +203,10 @@ def run_case(model, rng, version, plan, want, device_id=123456):
             obs["beep"] = int(bool(ac.beep))
         obs["device_after_apply"] = list(app.ac.state)
         obs["client_after_apply"] = client_view(ac)          # informational: may still show an unsolicited older report
+        returned = record_returns(ac)
         net.run(ac.refresh())
         obs["same_client_after_refresh"] = client_view(ac)
+        obs["same_client_got_current_report"] = has_report_of(model, returned, app.ac.state)
         ac2 = new_client()
         net.run(ac2.refresh())
         obs["online2"] = ac2.online and ac.online
@@ -193,6 +214,21 @@ def run_case(model, rng, version, plan, want, device_id=123456):
         obs["device_final"] = list(app.ac.state)
         obs["expected_view"] = expected_client_view(model, app.ac.state, ac2.supports_custom_fan_speed)
         obs["earlier_views"] = [expected_client_view(model, h, ac2.supports_custom_fan_speed) for h in app.ac.history[:-1]]
+        if plan.get("idle_push"):
+            # the appliance reports on its own while client A is idle; client B then changes the state; A refreshes
+            conn = ac._lan._protocol._transport._conn
+            net.inject(conn, 0.05, bytes(app.lan.response_packet(conn, app.ac.status_frame())))
+            net.tick(0.3)
+            acb = new_client()
+            net.run(acb.refresh())
+            set_attributes(acb, AC, plan["idle_push"])
+            net.run(acb.apply())
+            returned = record_returns(ac)
+            net.run(ac.refresh())
+            obs["idle_push"] = {"read": client_view(ac), "got_current_report": has_report_of(model, returned, app.ac.state),
+                                "expected": expected_client_view(model, app.ac.state, ac.supports_custom_fan_speed),
+                                "device": list(app.ac.state)}
+            obs["earlier_views"] = [expected_client_view(model, h, ac2.supports_custom_fan_speed) for h in app.ac.history[:-1]]
         obs["rejected_frames"] = len(app.ac.rejected)
     except BaseException as e:  # noqa: BLE001
         obs["status"] = exn_code(e)
